@@ -74,7 +74,11 @@ func aggEvalSnap(r *core.Run, s *stack.Snapshot, c *aggCase) [4][][]int {
 	for _, g := range s.Goroutines {
 		byID[g.ID] = g
 	}
-	for li, lvl := range allLevels {
+	// Levels fine to coarse, then back to fine on the same snapshot: what an earlier (coarser) aggregation did
+	// must not show in a later one.
+	for step, li := range []int{0, 1, 2, 3, 2, 1, 0} {
+		lvl := allLevels[li]
+		again := step > 3
 		var a *stack.Aggregated
 		var panicked any
 		func() {
@@ -87,7 +91,13 @@ func aggEvalSnap(r *core.Run, s *stack.Snapshot, c *aggCase) [4][][]int {
 			return parts
 		}
 		got := mon.GotPartition(a)
-		parts[li] = got
+		if !again {
+			parts[li] = got
+		}
+		tag := levelNames[li]
+		if again {
+			tag += "-after-coarser"
+		}
 		switch r.Prop {
 		case "C04":
 			if k, w := mon.CheckPartition(s, a); k != "" {
@@ -101,10 +111,10 @@ func aggEvalSnap(r *core.Run, s *stack.Snapshot, c *aggCase) [4][][]int {
 				if len(got) < len(want) {
 					key = "merged-dissimilar"
 				}
-				report(key+"/"+levelNames[li], fmt.Sprintf("%s: buckets %v, similarity classes %v", levelNames[li], got, want))
+				report(key+"/"+tag, fmt.Sprintf("%s: buckets %v, similarity classes %v", tag, got, want))
 				return parts
 			}
-			if li > 0 && !mon.Refines(parts[li-1], got) {
+			if li > 0 && !again && !mon.Refines(parts[li-1], got) {
 				report("refinement/"+levelNames[li], fmt.Sprintf("%s partition %v does not refine %s partition %v", levelNames[li-1], parts[li-1], levelNames[li], got))
 				return parts
 			}
@@ -117,27 +127,9 @@ func aggEvalSnap(r *core.Run, s *stack.Snapshot, c *aggCase) [4][][]int {
 					}
 				}
 				if k, w := mon.CheckBucketSignature(b, members); k != "" {
-					report(k, fmt.Sprintf("%s bucket ids %v: %s", levelNames[li], b.IDs, w))
+					report(k, fmt.Sprintf("%s bucket ids %v: %s", tag, b.IDs, w))
 					return parts
 				}
-			}
-		}
-	}
-	if r.Prop == "C05" {
-		// History must not matter: the exact levels again, after the coarse levels ran on the same snapshot.
-		for li := 1; li >= 0; li-- {
-			var a *stack.Aggregated
-			func() {
-				defer func() { _ = recover() }()
-				a = s.Aggregate(allLevels[li])
-			}()
-			r.Eval(1)
-			if a == nil {
-				continue
-			}
-			if got, want := mon.GotPartition(a), mon.RefPartition(s, allLevels[li]); !mon.PartEq(got, want) {
-				report("partition-after-coarser-aggregation/"+levelNames[li], fmt.Sprintf("%s after the coarser levels ran on the same snapshot: buckets %v, similarity classes %v", levelNames[li], got, want))
-				return parts
 			}
 		}
 	}
